@@ -44,6 +44,11 @@ type c18Replay struct {
 	Request apix.Request `json:"request"`
 	Choices []int        `json:"maporder_choices,omitempty"`
 	Oracle  string       `json:"oracle"`
+	// document variant (x-read-only mark of one operation changed)
+	IsVariant   bool   `json:"is_variant,omitempty"`
+	VarTemplate string `json:"var_template,omitempty"`
+	VarMethod   string `json:"var_method,omitempty"`
+	VarMark     int    `json:"var_mark,omitempty"`
 }
 
 type c18World struct {
@@ -63,6 +68,20 @@ func newC18World() *c18World {
 	maporder.Chooser = nil
 	w.off = apix.NewEnv(false)
 	w.on = apix.NewEnv(true)
+	return w
+}
+
+// newC18Variant is the world for a document variant (marks of one operation changed).
+func newC18Variant(template, method string, mark int) *c18World {
+	spec := apix.Variant(template, method, mark)
+	templates, ops := apix.Ops(spec)
+	w := &c18World{spec: spec, templates: templates, ops: ops, opOf: map[string]apix.Op{}}
+	for _, o := range ops {
+		w.opOf[o.Method+" "+o.Template] = o
+	}
+	maporder.Chooser = nil
+	w.off = apix.NewEnvWithSpec(false, spec)
+	w.on = apix.NewEnvWithSpec(true, apix.Variant(template, method, mark))
 	return w
 }
 
@@ -197,23 +216,35 @@ func (w *c18World) judge(r apix.Request, off, on apix.Obs) (string, string) {
 	if !off.Parsed {
 		return "", ""
 	}
-	// with writes off: no effect of a state-changing operation, no such handler reached
-	if off.Shutdowns > 0 {
-		return "C18/shutdown-signalled-in-read-only-mode", fmt.Sprintf("%s\nwrite operations are disabled, yet the shutdown channel received %d signal(s); answer: %d %q", r, off.Shutdowns, off.Status, off.Body)
-	}
-	if len(off.Triggers) > 0 {
-		return "C18/decryption-trigger-sent-in-read-only-mode", fmt.Sprintf("%s\nwrite operations are disabled, yet the trigger channel received %v; answer: %d %q", r, off.Triggers, off.Status, off.Body)
-	}
-	if off.DBChanged || off.P2PSent > 0 {
-		return "C18/state-changed-in-read-only-mode", fmt.Sprintf("%s\nwrite operations are disabled, yet the request changed state (database changed: %v, p2p messages: %d); answer: %d %q", r, off.DBChanged, off.P2PSent, off.Status, off.Body)
-	}
+	// with writes off: no handler of an operation not marked read-only is
+	// reached, and nothing but a read-only operation has an effect
+	reachedReadOnly := false
 	if off.Reached != "" {
 		op, ok := w.opOf[r.Method+" "+off.Reached]
 		if !ok {
 			return "C18/undocumented-handler-reached-in-read-only-mode", fmt.Sprintf("%s\nwrite operations are disabled; the router dispatched to endpoint %s %s, which is no operation of the OpenAPI document (so it is not marked read-only)", r, r.Method, off.Reached)
 		}
 		if !op.ReadOnly {
-			return "C18/write-operation-reached-in-read-only-mode/" + op.OperationID, fmt.Sprintf("%s\nwrite operations are disabled; the router dispatched to the handler of %s (%s), which is not marked x-read-only; answer: %d %q", r, op.OperationID, op, off.Status, off.Body)
+			eff := ""
+			if off.Shutdowns > 0 {
+				eff = fmt.Sprintf("; the shutdown channel received %d signal(s)", off.Shutdowns)
+			}
+			if len(off.Triggers) > 0 {
+				eff += fmt.Sprintf("; the trigger channel received %v", off.Triggers)
+			}
+			return "C18/write-operation-reached-in-read-only-mode/" + op.OperationID, fmt.Sprintf("%s\nwrite operations are disabled; the router dispatched to the handler of %s (%s), which is not marked x-read-only: true; answer: %d %q%s", r, op.OperationID, op, off.Status, off.Body, eff)
+		}
+		reachedReadOnly = true
+	}
+	if !reachedReadOnly {
+		if off.Shutdowns > 0 {
+			return "C18/shutdown-signalled-in-read-only-mode", fmt.Sprintf("%s\nwrite operations are disabled, yet the shutdown channel received %d signal(s); answer: %d %q", r, off.Shutdowns, off.Status, off.Body)
+		}
+		if len(off.Triggers) > 0 {
+			return "C18/decryption-trigger-sent-in-read-only-mode", fmt.Sprintf("%s\nwrite operations are disabled, yet the trigger channel received %v; answer: %d %q", r, off.Triggers, off.Status, off.Body)
+		}
+		if off.DBChanged || off.P2PSent > 0 {
+			return "C18/state-changed-in-read-only-mode", fmt.Sprintf("%s\nwrite operations are disabled, yet the request changed state (database changed: %v, p2p messages: %d); answer: %d %q", r, off.DBChanged, off.P2PSent, off.Status, off.Body)
 		}
 	}
 	// read-only operations answer exactly as with writes on
@@ -258,6 +289,10 @@ func (w *c18World) sanity(c *report.Ctx) {
 		r := apix.Request{Method: op.Method, Target: apix.Prefix + apix.Canonical(w.spec, op.Template), Body: body, CType: ctype}
 		on := w.on.DoTraced(r)
 		off := w.off.DoTraced(r)
+		if sig, msg := w.judge(r, off, on); sig != "" {
+			c.Violation(sig, "[canonical request of "+op.OperationID+"]\n"+msg, c18Replay{Request: r, Oracle: "judge"})
+			continue
+		}
 		if on.Reached != op.Template {
 			if op.ReadOnly {
 				c.Violation("C18/read-only-operation-unreachable/"+op.OperationID, fmt.Sprintf("%s: the canonical request does not reach the read-only operation %s even with write operations enabled: %d %q", r, op.OperationID, on.Status, on.Body), c18Replay{Request: r, Oracle: "sanity"})
@@ -270,7 +305,9 @@ func (w *c18World) sanity(c *report.Ctx) {
 		}
 		if !op.ReadOnly {
 			effect := on.Shutdowns > 0 || len(on.Triggers) > 0 || on.DBChanged || on.P2PSent > 0
-			c.Stats.Class(fmt.Sprintf("sanity, writes on: %s -> %s", op, w.outcome(r, on)))
+			if c.Shard == 0 {
+				c.Stats.Class(fmt.Sprintf("sanity, writes on: %s -> %s", op, w.outcome(r, on)))
+			}
 			if !effect {
 				c.Stats.SetExtra("note_"+op.OperationID, "state-changing operation without an effect observable by the harness; reach is decided by the routing context only")
 			}
@@ -343,42 +380,104 @@ func c18() *report.Check {
 				if maporder.Ranges == before {
 					return
 				}
-				// every map iteration order
+				// every map iteration order, per mode: one serving per execution
 				nWithMap++
-				ref := off.Key() + " | " + on.Key() + " | " + off.Reached + " | " + on.Reached
-				d := &explore.DFS{Bound: -1, Deadline: c.Deadline, Body: func(run *explore.Run) {
-					maporder.Chooser = func(n int, label string) int { return run.Choose(n, label) }
-					o2, n2, nd := w.serve(r)
+				var execs int64
+				for _, e := range []*apix.Env{w.off, w.on} {
+					e := e
+					ref := off
+					if e.Writes {
+						ref = on
+					}
+					d := &explore.DFS{Bound: -1, Deadline: c.Deadline, Body: func(run *explore.Run) {
+						maporder.Chooser = func(n int, label string) int { return run.Choose(n, label) }
+						o2 := e.DoTraced(r)
+						maporder.Chooser = nil
+						if o2.Key() != ref.Key() || o2.Reached != ref.Reached {
+							run.Failf("C18/verdict-depends-on-map-order", "%s (writes=%v)\nsorted map order:   %s reached=%q\npermuted map order: %s reached=%q", r, e.Writes, ref.Key(), ref.Reached, o2.Key(), o2.Reached)
+							return
+						}
+						var sig, msg string
+						if e.Writes {
+							sig, msg = w.judge(r, off, o2)
+						} else {
+							sig, msg = w.judge(r, o2, on)
+						}
+						if sig != "" {
+							run.Failf(sig, "%s", msg)
+						}
+					}}
+					d.Explore()
 					maporder.Chooser = nil
-					if nd != "" {
-						run.Failf("C18/verdict-differs-between-repeated-runs", "%s", nd)
-						return
+					execs += d.Execs
+					if d.Capped != "" {
+						c.Stats.Cap("map-order exploration: " + d.Capped)
 					}
-					if got := o2.Key() + " | " + n2.Key() + " | " + o2.Reached + " | " + n2.Reached; got != ref {
-						run.Failf("C18/verdict-depends-on-map-order", "%s\nsorted map order:   %s\npermuted map order: %s", r, ref, got)
-						return
+					for _, f := range d.Failures {
+						c.Violation(f.Signature, fmt.Sprintf("[%s; %s; body %s] writes=%v, under map order choices %v\n%s", p.Template, p.How, bodyName, e.Writes, f.Choices, f.Message), c18Replay{Request: r, Choices: f.Choices, Oracle: "maporder"})
 					}
-					if sig, msg := w.judge(r, o2, n2); sig != "" {
-						run.Failf(sig, "%s", msg)
-					}
-				}}
-				d.Explore()
-				maporder.Chooser = nil
-				nMapRuns += d.Execs
-				c.Stats.Evaluations += d.Execs
-				if int(d.Execs) > maxPerm {
-					maxPerm = int(d.Execs)
 				}
-				if d.Capped != "" {
-					c.Stats.Cap("map-order exploration: " + d.Capped)
+				nMapRuns += execs
+				c.Stats.Evaluations += execs
+				if int(execs) > maxPerm {
+					maxPerm = int(execs)
 				}
-				for _, f := range d.Failures {
-					c.Violation(f.Signature, fmt.Sprintf("[%s; %s; body %s] under map order choices %v\n%s", p.Template, p.How, bodyName, f.Choices, f.Message), c18Replay{Request: r, Choices: f.Choices, Oracle: "maporder"})
-				}
+				d := struct{ Execs int64 }{execs}
 				if nWithMap == 1 {
 					c.Stats.Sample(map[string]any{"request": r.String(), "how": p.How, "map_orders_explored": d.Execs, "writes_off": off, "writes_on": on})
 				}
 			})
+			// document variants: the x-read-only mark of each operation absent /
+			// false / true, in both representations the extension can have
+			var nVar int64
+			for _, op := range w.ops {
+				for mark := range apix.MarkVariants {
+					unit++
+					if unit%c.NShards != c.Shard {
+						continue
+					}
+					if c.Expired() {
+						c.Stats.Cap("budget reached in the document variants")
+						break
+					}
+					v := newC18Variant(op.Template, op.Method, mark)
+					name := fmt.Sprintf("document variant: x-read-only of %s %s", op.OperationID, apix.MarkVariants[mark])
+					v.sanity(&report.Ctx{Property: c.Property, Stats: &report.Stats{}, NShards: 1, Shard: 1}) // vacuity guard only
+					for _, t := range v.templates {
+						for _, sp := range apix.Spellings(t, apix.Canonical(v.spec, t), apix.LiteralSegs(t)) {
+							switch sp.How {
+							case "canonical", "query", "trailing slash", "everything %-encoded", "/v1/./…":
+							default:
+								continue
+							}
+							for _, m := range c18Methods {
+								for _, b := range v.bodies() {
+									r := apix.Request{Method: m, Target: sp.Target, Body: b.body, CType: b.ctype}
+									nVar++
+									c.Stats.Evaluations++
+									maporder.Chooser = nil
+									off, on, nondet := v.serve(r)
+									if nondet != "" {
+										c.Violation("C18/verdict-differs-between-repeated-runs", name+"\n"+nondet, c18Replay{Request: r, Oracle: "repeat", VarTemplate: op.Template, VarMethod: op.Method, VarMark: mark, IsVariant: true})
+									}
+									if sig, msg := v.judge(r, off, on); sig != "" {
+										c.Violation(sig+"/document-variant", fmt.Sprintf("[%s; %s %s; body %s]\n%s", name, sp.Template, sp.How, b.name, msg), c18Replay{Request: r, Oracle: "judge", VarTemplate: op.Template, VarMethod: op.Method, VarMark: mark, IsVariant: true})
+										c.Stats.Class("VIOLATION " + sig + " (document variant)")
+									}
+									if sp.How == "canonical" && sp.Template == op.Template && m == op.Method && (b.body != "") == op.NeedsBody && b.name != "garbage" {
+										kind := "state-changing"
+										if w.opOf[op.Method+" "+op.Template].ReadOnly {
+											kind = "read-only"
+										}
+										c.Stats.Class(fmt.Sprintf("document variant, mark of a %s operation set to %s; its canonical request with writes off: %s", kind, apix.MarkVariants[mark], numRe.ReplaceAllString(v.outcome(r, off), "N")))
+									}
+								}
+							}
+						}
+					}
+				}
+			}
+			c.Stats.Count("document_variant_requests", nVar)
 			c.Stats.Count("requests", nReq)
 			c.Stats.Count("requests_meeting_a_multi_key_map_range", nWithMap)
 			c.Stats.Count("map_order_executions", nMapRuns)
@@ -390,6 +489,9 @@ func c18() *report.Check {
 				return "bad replay: " + err.Error()
 			}
 			w := newC18World()
+			if rp.IsVariant {
+				w = newC18Variant(rp.VarTemplate, rp.VarMethod, rp.VarMark)
+			}
 			if rp.Oracle == "sanity" {
 				cc := &report.Ctx{Property: c.Property, Stats: &report.Stats{}, NShards: 1}
 				w.sanity(cc)
@@ -407,23 +509,29 @@ func c18() *report.Check {
 				return sig + "\n" + msg
 			}
 			if len(rp.Choices) > 0 {
-				i := 0
-				maporder.Chooser = func(n int, label string) int {
-					if i < len(rp.Choices) {
-						i++
-						if rp.Choices[i-1] < n {
-							return rp.Choices[i-1]
+				for _, e := range []*apix.Env{w.off, w.on} {
+					i := 0
+					maporder.Chooser = func(n int, label string) int {
+						if i < len(rp.Choices) {
+							i++
+							if rp.Choices[i-1] < n {
+								return rp.Choices[i-1]
+							}
 						}
+						return 0
 					}
-					return 0
-				}
-				off, on, _ := w.serve(rp.Request)
-				maporder.Chooser = nil
-				if sig, msg := w.judge(rp.Request, off, on); sig != "" {
-					return sig + "\n" + msg
-				}
-				if off.Key()+on.Key()+off.Reached+on.Reached != off0.Key()+on0.Key()+off0.Reached+on0.Reached {
-					return fmt.Sprintf("verdict depends on map order\nsorted:   %s | %s\npermuted: %s | %s", off0.Key(), on0.Key(), off.Key(), on.Key())
+					o2 := e.DoTraced(rp.Request)
+					maporder.Chooser = nil
+					ref, off, on := off0, o2, on0
+					if e.Writes {
+						ref, off, on = on0, off0, o2
+					}
+					if o2.Key() != ref.Key() || o2.Reached != ref.Reached {
+						return fmt.Sprintf("verdict depends on map order (writes=%v)\nsorted:   %s reached=%q\npermuted: %s reached=%q", e.Writes, ref.Key(), ref.Reached, o2.Key(), o2.Reached)
+					}
+					if sig, msg := w.judge(rp.Request, off, on); sig != "" {
+						return sig + "\n" + msg
+					}
 				}
 			}
 			return ""
